@@ -2,6 +2,7 @@ package props
 
 import (
 	"fmt"
+	"strings"
 	"strconv"
 
 	"github.com/spf13/afero"
@@ -20,6 +21,10 @@ import (
 // behind in its own bucket and key is not judged here.
 func c09StorageFaults(c *engine.Ctx) {
 	routes := c09Routes()
+	// reads of a part of an object (seek + read) and of a suffix
+	routes = append(routes,
+		gReq{route: "get-object-range", method: "GET", path: "/aaa/k", header: []kv{{"Range", "bytes=2-5"}}},
+		gReq{route: "get-object-suffix", method: "GET", path: "/aaa/k", header: []kv{{"Range", "bytes=-3"}}})
 	states := []c09State{{name: "objects", setup: c09SetupObjects}, {name: "uploads", setup: c09SetupUploads}}
 	kinds := []drv.Kind{drv.MultiMem, drv.SingleMem}
 	if !quick(c) {
@@ -58,7 +63,7 @@ func c09StorageFaults(c *engine.Ctx) {
 		jb := jobs[ji]
 		w, plan, vars := newWorld(jb.kind, jb.state)
 		plan.Arm(-1)
-		doWithWatchdog(w, jb.base.build(vars))
+		ref, _ := doWithWatchdog(w, jb.base.build(vars))
 		n := plan.Disarm()
 		w.Close()
 		c.Add(0, 1, 1, 1)
@@ -89,6 +94,21 @@ func c09StorageFaults(c *engine.Ctx) {
 					nd, perr := drv.ParseXML(resp.Body)
 					if perr != nil || nd.Name != "Error" || nd.T("Code") == "" {
 						report(sig("C09", "fs", "storage-fault", "malformed-error-body", strconv.Itoa(resp.Status)), fmt.Sprintf("status %d with a body that is not an S3 error document: %q", resp.Status, clip(string(resp.Body), 120)))
+						break
+					}
+				}
+				// data integrity under a fault: a read that still answers with success must deliver
+				// the bytes the fault-free read delivers (or a cut-off stream), never other bytes
+				if jb.base.method == "GET" && strings.HasPrefix(jb.base.route, "get-object") && resp.Status >= 200 && resp.Status < 300 && ref.Status == resp.Status {
+					got, want := string(resp.Body), string(ref.Body)
+					n := 0
+					for n < len(got) && n < len(want) && got[n] == want[n] {
+						n++
+					}
+					rest := got[n:]
+					if rest != "" && !strings.HasPrefix(rest, "<?xml") && !strings.HasPrefix(rest, "<Error") {
+						report(sig("C09", "fs", "storage-fault", jb.base.route, "wrong-bytes-with-success", "failed-op="+failed),
+							fmt.Sprintf("answered %s with body %q; the fault-free answer is %q (Content-Range %q)", resp.Short(), clip(got, 60), clip(want, 60), resp.Header.Get("Content-Range")))
 						break
 					}
 				}
